@@ -141,6 +141,11 @@ GetPod(r, found, sticky) ==
     /\ gc' = IF gc.st = "in" THEN [gc EXCEPT !.st = "out"] ELSE gc                                   \* the pass must be over
     /\ UNCHANGED <<cloud, pod, disk, wr, acked, gcn, apierr, conv, up>>
 
+(* what the daemon still owes: not the address of a pod whose effective DEL is inside its handler (the address is *)
+(* on its way back to the pool; this is also what a daemon killed now still owes after its restart)          *)
+Owed == [p \in Pods |-> IF \E r \in Rpcs : InHandler(r) /\ rpc[r].k = "del" /\ rpc[r].p = p /\ rpc[r].eff
+                        THEN NoAck ELSE acked[p]]
+
 StillInside(r) == /\ G("C04", rpc[r].st # "outP")      \* no second request of the pod was let in meanwhile
                   /\ G("C09", rpc[r].st # "outG")      \* no GC pass ran meanwhile
 GcMayTouch(p) == \/ (p \notin gc.live /\ gc.exist[p] = "no")
@@ -155,7 +160,7 @@ PutBegin(p, rec) ==
             /\ InHandler(r) /\ rpc[r].k = "add" /\ rpc[r].p = p /\ rpc[r].c = rec.c
             /\ StillInside(r)
             /\ G("C04", AckLive(p) => SameAlloc(rec, acked[p]))                                      \* repeated ADD: the same address
-            /\ G("C05", \A q \in Pods \ {p} : AckLive(q) => ~SameAlloc(rec, acked[q]))               \* never an address another pod was told it holds
+            /\ G("C05", \A q \in Pods \ {p} : AckLiveIn(Owed, q) => ~SameAlloc(rec, Owed[q]))        \* never an address another pod was told it holds
             /\ wr' = [p |-> p, rec |-> rec, by |-> "rpc"]
             /\ gcn' = [gcn EXCEPT ![p] = 0]
             /\ UNCHANGED gc
@@ -269,9 +274,7 @@ Obs(diskobs, memobs, own, cl) ==
     /\ GA(OwnersAgree(own, disk, acked))
     /\ UNCHANGED vars
 
-(* acked as far as a daemon killed now still owes it: not to a pod whose DEL was inside its handler *)
-AckedAfterKill == [p \in Pods |-> IF \E r \in Rpcs : InHandler(r) /\ rpc[r].k = "del" /\ rpc[r].p = p /\ rpc[r].eff
-                                  THEN NoAck ELSE acked[p]]
+AckedAfterKill == Owed
 DiskAfterKill == {disk} \cup (IF wr = NoWr THEN {} ELSE {[disk EXCEPT ![wr.p] = wr.rec]})            \* the write in progress: all or nothing
 
 Crash ==
@@ -315,7 +318,7 @@ RawBegin(p, rec) ==
 
 -----------------------------------------------------------------------------
 (* State invariants (theorems of the guarded specification) *)
-AckedExclusive == \A p, q \in Pods : (p # q /\ AckLive(p) /\ AckLive(q)) => ~SameAlloc(acked[p], acked[q])
+AckedExclusive == \A p, q \in Pods : (p # q /\ AckLiveIn(Owed, p) /\ AckLiveIn(Owed, q)) => ~SameAlloc(Owed[p], Owed[q])
 AckedOnDisk == \A p \in Pods :
                   (acked[p] # NoAck /\ wr.p # p /\ ~(\E r \in Rpcs : InHandler(r) /\ rpc[r].p = p) /\ gc.st = "idle" /\ up)
                   => (disk[p] # NoRec /\ (AckLive(p) => SameAlloc(disk[p], acked[p])))
